@@ -50,6 +50,8 @@ pub fn spawn_local<F>(future: F) -> JoinHandle<F::Output>
 where
     F: Future + 'static,
 {
+    #[cfg(ractor_verif)]
+    let future = crate::verif::gate(None, future);
     tokio::task::spawn_local(future)
 }
 
@@ -59,6 +61,8 @@ where
     F: Future + Send + 'static,
     F::Output: Send + 'static,
 {
+    #[cfg(ractor_verif)]
+    let future = crate::verif::gate(name, future);
     #[cfg(tokio_unstable)]
     {
         let mut builder = tokio::task::Builder::new();
